@@ -125,6 +125,7 @@ var whitelist = []FuncSpec{
 	{"pkg/provider/serviceprovider", "", "NewServiceProvider", ""},
 	{Pkg: "pkg/provider", Recv: "IdentityProvider", Name: "certificateHandleFunc"},
 	{Pkg: "pkg/provider", Recv: "IdentityProvider", Name: "GetServiceProvider"},
+	{Pkg: "pkg/provider", Name: "createPostSignature"},
 	{Pkg: "pkg/provider", Name: "hostFromForwarded"},
 	{Pkg: "pkg/provider", Name: "issuerFromForwardedOrHost", Part: "validate"},
 	{Pkg: "pkg/provider", Name: "issuerFromForwardedOrHost", Part: "derive"},
@@ -138,7 +139,7 @@ var whitelist = []FuncSpec{
 var standaloneOnly = map[string]bool{"pkg/provider/serviceprovider.ServiceProvider.ValidateRedirectSignature": true,
 	"pkg/provider/xml.DecodeAuthNRequest": true, "pkg/provider/xml.DecodeLogoutRequest": true,
 	"pkg/provider.IdentityProviderConfig.getMetadata": true, "pkg/provider.IdentityProvider.GetEntityID": true, "pkg/provider.IdentityProvider.GetMetadata": true,
-	"pkg/provider.createRedirectSignature": true, "pkg/provider.IdentityProvider.GetServiceProvider": true,
+	"pkg/provider.createRedirectSignature": true, "pkg/provider.IdentityProvider.GetServiceProvider": true, "pkg/provider.createPostSignature": true,
 	"pkg/provider/serviceprovider.getSigningCertsFromMetadata": true, "pkg/provider/serviceprovider.NewServiceProvider": true}
 
 // extraFields are struct fields the hand-written handler models read although no translated function does.
